@@ -21,7 +21,7 @@ ASSUMPTIONS = ["two-node interleavings are not enumerated"]
 DOC = {
  "C20.R1": "proxy: outgoing Call tag == key of the stored reply port == fresh tag; counter written only by the fresh-tag function (+ constructor) as previous+1; failed forward removes that key; CallReply removes by its tag and sends its data on the removed port",
  "C20.R2": "session: Reply{tag,to} originate from the Call's tag/to; what/variant/metadata flow unchanged into SerializedMessage; a Reply frame goes to the proxy stored under `to` with the frame's tag and payload",
- "C20.R3": "proxies are spawned only in get_or_spawn_remote_actor, supervised by the session's own cell, inserted under the pid they were asked for; Terminate removes and stops them",
+ "C20.R3": "proxies are spawned only in get_or_spawn_remote_actor, which is called only on the Spawn / PgJoin edges of the control-frame match (Terminate and PgLeave only look up), supervised by the session's own cell, inserted under the pid they were asked for; Terminate removes and stops them",
  "C20.R4": "PgJoin / PgLeave: scope and group of the frame flow unchanged into join_scoped / leave_scoped; cells come from get_or_spawn / the proxy map",
  "C20.R6": "= C19.R2 (framing): every read of a frame payload is bounded by min(len - buf.len(), chunk) computed inside the loop",
  "C20.R7": "every control_protocol::Actor built from a local cell is behind supports_remoting() (filter upstream of the map, or the true edge for single cells): Join, Leave, the post-auth scans and the pid events agree",
@@ -181,6 +181,27 @@ def r3(run, db):
         st = [c for c in f.calls() if c.matches(r"stop_and_wait$|ActorCell::stop$") and te and f.edge_dominates(te, c.site)]
         good = len(rm) == 1 and len(st) == 1 and any(r["k"] == "call" and r["call"].bb == rm[0].bb for r in f.origins(st[0].args[0], through=lambda cc: 0 if cc.matches("Deref>::deref$") else None))
         run.check(good, "terminate-removes-and-stops", "Terminate removes the proxy from the map and stops exactly that proxy", "Terminate handling changed", f.where())
+    # a proxy comes into being only for a pid the peer announces as alive: the Spawn and PgJoin frames.  Every other frame that
+    # names a pid (Terminate, PgLeave) only looks it up -- the owner sends Terminate(pid) *before* the PgLeave of a dying member,
+    # so a creating lookup in the leave path would resurrect a proxy for an actor that no longer exists
+    gos = [c for c in db.calls_of("get_or_spawn_remote_actor") if c.fn.crate == RC and "::tests::" not in c.fn.id]
+    run.anchor("callers of get_or_spawn_remote_actor", len(gos), 2)
+    for c in gos:
+        f = c.fn
+        arms = []
+        frames = False
+        for site, t in f.switches():
+            info = f.switch_info(site)
+            if info.get("kind") == "enum" and (info.get("disc_adt") or "").endswith("control_message::Msg"):
+                frames = True
+                arms += [lab for lab, tgt in info["edges"].items() if f.edge_dominates((site.bb, tgt), c.site)]
+        if not frames:
+            # not the control-frame handler (the supervision handler re-creates a proxy whose own task failed: its original is alive)
+            run.ok("proxy-recreated-outside-frames:%s" % f.id.split("::")[-2], "%s calls get_or_spawn_remote_actor outside the control-frame match (not judged by this rule)" % f.id, c.where())
+            continue
+        run.check(bool(arms) and set(arms) <= {"Spawn", "PgJoin"}, "proxy-created-only-on-announcement@%s" % ("/".join(sorted(set(arms))) or f.id.split("::")[-2]),
+                  "get_or_spawn_remote_actor is called on the %s edge of the control-frame match" % sorted(set(arms)),
+                  "a remote reference can be created while handling %s (only Spawn and PgJoin announce a live actor): e.g. the PgLeave that follows the Terminate of a dying group member would re-create the proxy just removed -- a live remote reference that outlives its original" % (sorted(set(arms)) or "a frame other than Spawn/PgJoin"), c.where())
 
 
 def r4(run, db):
